@@ -715,7 +715,7 @@ def replay(pid, path):
 
 
 HOOK_COMMITS = ["ffc8b2b"]
-FIX_COMMITS = ["ca17dcd", "3401bdf", "db0baa0", "3af4e16", "b9b9933", "8154c20", "f1b4fb0", "9b44a2c", "d0885ee", "c8750dd", "2ca6488", "82641ae", "d771171", "a1dc9d0", "06d5e1b", "611037e", "515e4a3"]
+FIX_COMMITS = ["ca17dcd", "3401bdf", "db0baa0", "3af4e16", "b9b9933", "8154c20", "f1b4fb0", "9b44a2c", "d0885ee", "c8750dd", "2ca6488", "82641ae", "d771171", "a1dc9d0", "06d5e1b", "611037e", "515e4a3", "1d6d77a"]
 NOT_YET = {}
 
 PROOF_NOTE = ("Trusted: Lean kernel; Semantics/*.lean as the specification; the correspondence harness and serialisers; "
@@ -800,7 +800,7 @@ PROPS = {
                       "every HT interpretation (H subset T not even needed), world and assignment: the interpretation satisfies every formula of tau_star(P) iff it satisfies every rule of P in the "
                       "reference semantics (value sets with multi-valued intervals, partial division/modulo, arithmetic undefined on non-integers; comparisons; not / not not; choice heads; constraints). "
                       "Proved level by level: val (term induction; freshness of I,J,K,Q,R proved by pigeonhole + first-letter argument, no premise left), tau_b (fresh Z names), tau_star_rule (three head kinds, "
-                      "global V<n> variables fresh for the whole program via the digit round trip of toString), program. stable_iff_equilibrium: stable models with input facts are exactly the equilibrium models of the theory.",
+                      "global V<n> variables fresh for the whole program via the digit round trip of toString), program. stable_iff_equilibrium: stable models with input facts are exactly the equilibrium models of the theory. Since fix 1d6d77a (checked addition with a fallback in choose_fresh_global_variables) the fresh head variables are fresh for every program (chooseFreshGlobals_spec without hypothesis) and tau_star_correct_every_program states C01 with no hypothesis at all.",
         "level_note": PROOF_NOTE + " Semantics/Asp.lean (reference semantics of mini-gringo: division only for positive divisors, as the source documents) is part of the specification.",
         "technique": "Lean 4 proof (induction on terms, body atoms, rules, programs; integer-sorted binders cannot capture general-sorted program variables; fresh names by pigeonhole) + differential correspondence",
         "design_ref": "DESIGN.md 0.3, 6/C01",
@@ -1050,7 +1050,7 @@ PROPS = {
                 "(b) the real CLI on byte strings obtained by mutating the repo's example files and adversarial seeds (token deletion / duplication / swap, numeral inflation to the integer limits, operator soup, "
                 "unbalanced and deep parentheses, empty and comment-only files) through parse / translate / simplify / analyze / verify --no-proof-search: outcome class output | error+non-zero exit | panic | signal | timeout(20 s)",
         "level_text": "Partial: substitute_panic_free (no panic on sort-compatible arguments, for every formula and every renaming), globals_panic_iff, tptp_panic_free, external_panic_only_overflow (the whole external-equivalence pipeline - checks, tau*, placeholder replacement, completion, simplification, outline construction, assembly - panics only on the overflow of the global-variable index; completion_of_tau_star_exists: the expect in theory_translate is unreachable) proved on the model; two crashes repaired (ca17dcd, 3401bdf); "
-                      "two crash classes remain as known findings (numerals beyond the integer type, global index overflow); stack depth, allocation and hangs are not expressible in the model and are covered by the CLI exploration only. out_of_range_refused / accepted_numerals_in_range - since fix 515e4a3 the parser refuses a text whose numerals or arities do not fit the integer types (before: panic in the tree builder), so every numeral of an accepted program fits isize; the parser models used in the correspondence are the checked ones (grammar + range check).",
+                      "two crash classes remain as known findings (numerals beyond the integer type, global index overflow); stack depth, allocation and hangs are not expressible in the model and are covered by the CLI exploration only. out_of_range_refused / accepted_numerals_in_range - since fix 515e4a3 the parser refuses a text whose numerals or arities do not fit the integer types (before: panic in the tree builder), so every numeral of an accepted program fits isize; the parser models used in the correspondence are the checked ones (grammar + range check). external_never_panics / fresh_globals_always_fresh / globals_never_panic - since fix 1d6d77a the index of the fresh global variables no longer overflows (checked addition, smallest unused indices as fallback): the external pipeline reaches no panic at all.",
         "level_note": PROOF_NOTE + " The pest parsers and the tree builders' integer parsing are exercised, not modelled.",
         "technique": "Lean 4 proof (panic-site predicates of the model) + differential correspondence of panics + CLI mutation exploration",
         "design_ref": "DESIGN.md 6/C16",
